@@ -12,7 +12,8 @@ EXPLANATION = (
     "lattice of specifiers - names with digits, hyphens, underscores, versions `*`, `!`, x, x.y.z, prerelease, with and without "
     "rename - and must accept every valid one, take it apart as documented (`[rename=]crate@version`, `[crate@]version`) and "
     "refuse names with other characters; the macro puts the map key in `rename` and the text before `@` in the crate name; (D4) the macro's `Type: ?Trait + Trait` syntax "
-    "starts from {FromStr, Display}, no modifier inserts, `?` removes; (W1) each front end performs exactly TypeSpace::new(&settings) "
+    "is evaluated on eleven bound lists and must yield the documented impl set (defaults {FromStr, Display}, `Trait` adds, `?Trait` "
+    "removes, unknown traits ignored); the shape-based D4 rules are advisory when that evaluation is possible; (W1) each front end performs exactly TypeSpace::new(&settings) "
     "-> add_root_schema -> to_stream/ToTokens with no later mutation of the settings or the space, and the document it adds is the "
     "parse result of the file, never borrowed mutably or assigned to; no setter call is preceded by a conditional early exit of the "
     "loop or function it sits in; (W3) every front end hands a derive path to the generator in its written spelling (`a::b::C`: "
@@ -353,16 +354,57 @@ def run(facts, rep, tier):
 
     # ------------------------------------------------------------ D4 impls syntax
     ti = [h for h in mc.user_fns() if h["fn"].endswith("into_name_and_impls")]
-    if rep.floor("C15.D4", "TypeAndImpls::into_name_and_impls", len(ti), 1):
+    R4 = rep
+    if ti:
+        # decided by evaluation: for every list of `Trait` / `?Trait` bounds the resulting impl set is the documented one
+        # (defaults {FromStr, Display}, each `Trait` added, each `?Trait` removed, unknown traits ignored)
+        import minirust as mr4
+        mach4 = mr4.Machine(mc, hooks={"to_token_stream": lambda mach, r_: r_})
+        scen = [[], [("Maybe", "Display")], [("Maybe", "FromStr")], [("None", "Default")], [("Maybe", "Display"), ("None", "Default")], [("None", "Default"), ("Maybe", "FromStr")],
+                [("Maybe", "Display"), ("Maybe", "FromStr")], [("None", "Display")], [("None", None)], [("Maybe", None), ("None", "Default")], [("Maybe", "Default")]]
+        bad4 = None
+        try:
+            for items in scen:
+                me = ("struct", "TypeAndImpls", {"type_name": "T", "colon_token": mr4.NONE, "impls": [("struct", "ImplTrait", {"modifier": ("ctor", m_, [] if m_ == "None" else ["?"]), "impl_name": mr4.some(("ctor", n_, [])) if n_ else mr4.NONE}) for m_, n_ in items]})
+                mach4.fuel = 50000
+                r_ = mach4.run_fn(ti[0], [me])
+                got = sorted(x[1] for x in (r_[1][1] if isinstance(r_, tuple) and r_[0] == "tup" else []) if isinstance(x, tuple))
+                want = {"FromStr", "Display"}
+                for m_, n_ in items:
+                    if n_ is None:
+                        continue
+                    if m_ == "None":
+                        want.add(n_)
+                    else:
+                        want.discard(n_)
+                if got != sorted(want) or len(got) != len(set(got)):
+                    txt = " + ".join(("?" if m_ == "Maybe" else "") + (n_ or "Unknown") for m_, n_ in items) or "(no bounds)"
+                    bad4 = "`T: %s` yields the impl set %s (documented: %s)" % (txt, got, sorted(want))
+                    break
+        except mr4.Unknown as e_:
+            bad4 = None
+            rep.info("C15.D4 not evaluable (%s): the shape-based rules decide" % e_)
+        else:
+            rep.ob("C15.D4", "impl-set-as-documented", bad4 is None, "evaluated on %d bound lists: defaults {FromStr, Display}, `Trait` adds, `?Trait` removes, unknown traits are ignored" % len(scen) if bad4 is None else
+                   "the macro's `Type: Trait + ?Trait` syntax is interpreted wrongly: %s" % bad4, ti[0].get("sp") or mc.fns[ti[0]["fn"]].get("sp"))
+
+            class _Adv:
+                def ob(self, rule, key, ok, detail="", where=None, nontrivial=True):
+                    return rep.ob(rule, key, ok, detail, where, nontrivial) if ok else (rep.info("advisory (decided by evaluation): %s/%s" % (rule, key)) or False)
+
+                def floor(self, rule, what, count, minimum):
+                    return rep.floor(rule, what, count, minimum) if count >= minimum else (rep.info("advisory: anchor `%s` not found" % what) or False)
+            R4 = _Adv()
+    if R4.floor("C15.D4", "TypeAndImpls::into_name_and_impls", len(ti), 1):
         h = ti[0]
         consts = [x for q, x in mc.hir.items() if x.get("const") and "DEFAULT_IMPLS" in q]
         s = src(consts[0]["body"]) if consts else ""
-        rep.ob("C15.D4", "default-impl-set", set(re.findall(r"TypeSpaceImpl::(\w+)", s)) == {"FromStr", "Display"}, "DEFAULT_IMPLS = %s" % s)
+        R4.ob("C15.D4", "default-impl-set", set(re.findall(r"TypeSpaceImpl::(\w+)", s)) == {"FromStr", "Display"}, "DEFAULT_IMPLS = %s" % s)
         m = [n for n, _ in nodes(h["body"], "match") if n.get("src") == "normal" and any("TraitBoundModifier" in x for a in n["arms"] for x in pat_top_variants(a["pat"]))]
-        if rep.floor("C15.D4", "modifier table", len(m), 1):
+        if R4.floor("C15.D4", "modifier table", len(m), 1):
             got = {}
             from lib import table_is_plain
-            table_is_plain(rep, "C15.D4", "trait-modifier", m[0])
+            table_is_plain(R4, "C15.D4", "trait-modifier", m[0])
             for a in m[0]["arms"]:
                 for t in pat_top_variants(a["pat"]):
                     got[t.split("::")[-1]] = src(block_last(a["body"]))
@@ -370,12 +412,12 @@ def run(facts, rep, tier):
             cnt = Canon(mc, h, 4)
             recvs = sorted({cnt.r(x["recv"]) for a in m[0]["arms"] for x, _ in walk(a["body"]) if x.get("k") == "mcall" and x["name"] in ("insert", "remove")})
             okr = recvs == ["DEFAULT_IMPLS.into_iter().collect()"]
-            rep.ob("C15.D4", "modified-set-starts-from-defaults", okr, "the set that `Trait` / `?Trait` modify is DEFAULT_IMPLS, unconditionally" if okr else
+            R4.ob("C15.D4", "modified-set-starts-from-defaults", okr, "the set that `Trait` / `?Trait` modify is DEFAULT_IMPLS, unconditionally" if okr else
                    "the impl set that the modifiers edit starts as `%s`, not as the documented defaults {FromStr, Display}: `T: ?Display` or `T: Trait` no longer means defaults minus/plus that trait" % (recvs[0][:120] if recvs else "?"), m[0].get("sp"))
             tail = cnt.r(block_last(h["body"]))
             okt = tail.endswith("DEFAULT_IMPLS.into_iter().collect().into_iter())") or (recvs and tail.endswith(recvs[0] + ".into_iter())"))
-            rep.ob("C15.D4", "edited-set-is-returned", bool(okt), "the edited set is what is returned")
-            rep.ob("C15.D4", "modifier-none-inserts-maybe-removes", ok, "None => %s, Maybe => %s" % (got.get("None"), got.get("Maybe")), m[0].get("sp"))
+            R4.ob("C15.D4", "edited-set-is-returned", bool(okt), "the edited set is what is returned")
+            R4.ob("C15.D4", "modifier-none-inserts-maybe-removes", ok, "None => %s, Maybe => %s" % (got.get("None"), got.get("Maybe")), m[0].get("sp"))
 
     # ------------------------------------------------------------ W1 same pipeline
     for label, c, h in (("macro", mc, dm[0] if dm else None), ("cli", cli, conv[0] if conv else None)):
